@@ -7,6 +7,7 @@ mod fringe;
 mod models;
 mod parallel;
 mod sched;
+mod stores;
 
 fn main() {
     let args: Vec<String> = std::env::args().collect();
@@ -19,7 +20,11 @@ fn main() {
         "gap" => gap::replay(&rest),
         "nodup_fringe" => fringe::replay(&rest, true),
         "simple_fringe" => fringe::replay(&rest, false),
+        "nodup_fringe_fuzz" => fringe::fuzz(&rest, true),
+        "simple_fringe_fuzz" => fringe::fuzz(&rest, false),
         "par_abort_bounds" => parallel::replay_abort_bounds(&rest),
+        "cache_fuzz" => stores::cache_fuzz(&rest),
+        "dominance_fuzz" => stores::dominance_fuzz(&rest),
         "par_abort_inflight" => sched::replay_abort_inflight(&rest),
         "par_with_nb_threads" => parallel::replay_with_nb_threads(&rest),
         other => { eprintln!("unknown case {other}"); std::process::exit(2) }
